@@ -150,7 +150,9 @@ def analyse(repo: Repo, tier: str = "quick") -> List[Rec]:
                     # the dispatch of a tensor class hands a handler with ONE tensor operand an instance of that class: asserting it is a no-op
                     unary_self = len(tparams) == 1 and U(ef[1]) in (f"isinstance({tparams[0]}, {QB})", f"isinstance({tparams[0]}, QTensor)", f"isinstance({tparams[0]}, ({QB},))")
                     # established on this path: a fact of the path conditions, or the value was just built by the symmetric quantizer
-                    by_fact = hp.fact(U(ef[1])) is True
+                    # (a passing assert becomes a fact of the path itself: only conditions met on OTHER lines count)
+                    prior = {a_: t_ for c_, tr_, ln_ in p.conds if ln_ != ef[2] for a_, t_ in atoms(c_, tr_)}
+                    by_fact = prior.get(U(ef[1])) is True
                     built = isinstance(ef[1], ast.Call) and U(ef[1].func) == "isinstance" and len(ef[1].args) == 2 and U(ef[1].args[1]) in (QB, "QTensor") \
                         and isinstance(ef[1].args[0], ast.Call) and U(ef[1].args[0].func) in ("SymmetricQuantizer.apply", "quantize_activation", QB)
                     if _tautology(ef[1]) or unary_self or by_fact or built:
